@@ -103,6 +103,7 @@ class Sources:
         self.files = {}      # relpath -> (root, text-without-comments)
         self.impl_cache = {}
         self.roots = {}
+        self.generic_names = set()
 
     def add_crate(self, crate, root, src_subdir='src', local=True):
         """root: crate root dir (contains src/). File paths in MIR are relative to the crate root
@@ -126,6 +127,26 @@ class Sources:
             self._scan_items(text, mod)
 
     def _scan_items(self, src, mod):
+        for m in re.finditer(r'(?:\bfn\s+\w+|\bimpl|\bstruct\s+\w+|\benum\s+\w+|\btrait\s+\w+|\btype\s+\w+)\s*<', src):
+            i = m.end()
+            d = 1
+            n = len(src)
+            while i < n and d > 0:
+                c = src[i]
+                if c == '<':
+                    d += 1
+                elif c == '>' and src[i - 1] != '-':
+                    d -= 1
+                elif c in '{;':
+                    break
+                i += 1
+            if d != 0:
+                continue
+            for part in _split_commas(src[m.end():i - 1]):
+                part = part.strip()
+                mm = re.match(r'([A-Z]\w*)', part)
+                if mm and not part.startswith("'"):
+                    self.generic_names.add(mm.group(1))
         for m in re.finditer(r'\benum\s+(\w+)\s*(?:<[^>{]*>)?\s*(?:where[^{]*)?\{', src):
             name = m.group(1)
             end = _match_brace(src, m.end() - 1)
@@ -233,7 +254,7 @@ class Sources:
         if text is None and os.path.isabs(file) and os.path.exists(file):
             text = _strip_comments_keep_layout(open(file, encoding='utf-8').read())
             self.files[file] = text
-        res = (None, None)
+        res = (None, None, None)
         if text is not None:
             lines = text.split('\n')
             line = lines[l1 - 1]
@@ -261,9 +282,9 @@ class Sources:
                 hdr = hdr.strip()
                 m = re.match(r'(.+?)\s+for\s+(.+)$', hdr, re.S)
                 if m:
-                    res = (_norm_ty(m.group(1)), _norm_ty(m.group(2)))
+                    res = (_norm_ty(m.group(1)), _norm_ty(m.group(2)), m.group(1).strip())
                 else:
-                    res = (None, _norm_ty(hdr))
+                    res = (None, _norm_ty(hdr), None)
             else:
                 # derive: the span covers the trait name inside #[derive(...)]
                 trait = line[c1 - 1:c2 - 1] if l1 == l2 else frag
@@ -275,7 +296,7 @@ class Sources:
                         ty = m.group(1)
                         break
                     k += 1
-                res = (trait.strip(), ty)
+                res = (trait.strip(), ty, None)
         self.impl_cache[impl_at] = res
         return res
 
